@@ -99,12 +99,27 @@ def run(ctx):
     for h in ('23020300', '0488ffffffffffffffff', '030103', '2305030103', '30800201050201060000', 'a0800000', '3000', '30023000',
               '24800401610000', '0902030a', '06018' + '0', '0602ff7f', '7f', '1f8000', '0484ffffffff', '238003000000'):
         inputs.insert(0, ('exh', bytes.fromhex(h)))
+    # structured: every universal primitive tag with contents over a small alphabet of octets that matter
+    # to some contents decoder (REAL first octets, exponent forms, BIT STRING pad counts, 0x80 in OIDs ...)
+    CONT = [0x00, 0x01, 0x02, 0x03, 0x07, 0x08, 0x40, 0x41, 0x7f, 0x80, 0x81, 0x83, 0xc3, 0xff]
+    PRIM = {1: ('bool',), 2: ('int',), 3: ('bits',), 4: ('octs',), 5: ('null',), 6: ('oid',), 9: ('real',), 10: ('enum',), 12: ('str', 'UTF8String'), 22: ('str', 'IA5String')}
+    for tg, sd in PRIM.items():
+        conts = [()] + [(a,) for a in CONT] + [(a, b) for a in CONT for b in CONT]
+        conts += [tuple(ctx.rng.choice(CONT) for _ in range(ctx.rng.randint(3, 6))) for _ in range(ctx.n(60, 600) if tg in (3, 6, 9) else ctx.n(10, 100))]
+        for ct in conts:
+            if len(ct) >= 2 and ctx.tier == 'quick' and tg not in (3, 6, 9) and ctx.rng.random() < 0.6:
+                continue
+            inputs.append(('str', bytes([tg, len(ct)]) + bytes(ct), sd))
     exprs, meta = [], []
     for item in inputs:
         data = item[1]
         if item[0] == 'exh':
             spec_list = specs if len(data) <= 2 else [specs[0]] + ctx.rng.sample(specs[1:], 3)
             decs = ['BER', 'CER', 'DER'] if len(data) <= 2 else [ctx.rng.choice(['BER', 'CER', 'DER'])]
+        elif item[0] == 'str':
+            sd0 = item[2]
+            spec_list = [(sd0, U.build_type(sd0), U.coq_ty(sd0)), specs[0]]
+            decs = [ctx.rng.choice(['BER', 'CER', 'DER'])]
         else:
             c = item[2]
             spec_list = [(c.T, c.spec, c.cty), specs[0]]
@@ -123,7 +138,7 @@ def run(ctx):
                     n = reads_count(cdc, data, so)
                     if n > 8 * len(data) + 16:
                         ctx.prop_fail('decoder made %d stream reads on %d octets' % (n, len(data)), m)
-                if not search_only and sd is not None and ctx.rng.random() < (1.0 if item[0] == 'mut' else 0.35):
+                if not search_only and sd is not None and ctx.rng.random() < (1.0 if item[0] in ('mut', 'str') else 0.35):
                     if oc[0] == 'ok':
                         lit = '(Ok (%s, %s))' % (U.coq_aval(oc[1]), cbytes(oc[2]))
                     elif oc[0] == 'bad-value':
